@@ -178,6 +178,23 @@ theorem toneConv_tone (n k : ℕ) (A p fs : ℝ) (hfs : fs ≠ 0) (hk : 0 < k) (
   ⟨toneConv_whole_cycles n k A p fs hfs hk hkn, tonePower_whole_cycles n k A p fs hfs hk hkn,
    fun hA hp => tonePhase_whole_cycles n k A p fs hfs hk hkn hA hp⟩
 
+/-- **Single-frequency estimator through a window**: with any of SciPy's cosine-sum windows `tone_conv`,
+`tone_power_conv`, `tone_phase_conv` return exactly what they return without a window — `√2·A·e^{ip}`, `|A|`, `p` —
+at every analysis frequency `k·fs/n` with `w.terms - 1 < k < n/2 - (w.terms - 1)`. -/
+theorem toneConv_window_tone (w : CosWindow) (n k : ℕ) (A p fs : ℝ) (hfs : fs ≠ 0) (hk : w.terms - 1 < k)
+    (hkn : 2 * (k + (w.terms - 1)) < n) :
+    ((toneConvW n (w.window n) (toneSig n k A p) fs (k * fs / n)).re = Real.sqrt 2 * A * Real.cos p ∧
+     (toneConvW n (w.window n) (toneSig n k A p) fs (k * fs / n)).im = Real.sqrt 2 * A * Real.sin p) ∧
+    tonePowerW n (w.window n) (toneSig n k A p) fs (k * fs / n) = |A| ∧
+    (0 < A → -Real.pi < p ∧ p ≤ Real.pi →
+      tonePhaseW n (w.window n) (toneSig n k A p) fs (k * fs / n) = p) := by
+  have e := toneConvW_cosWin_tone_eq w.coef (w.terms - 1) n k A p fs hfs w.coef_zero_ne hk hkn
+  rw [← w.window_eq] at e
+  have h := toneConv_tone n k A p fs hfs (by omega) (by omega)
+  refine ⟨by rw [e]; exact h.1, ?_, ?_⟩
+  · rw [tonePowerW, e]; exact h.2.1
+  · rw [tonePhaseW, e]; exact h.2.2
+
 /-- **Parseval, one-sided**: total power in the spectrum = mean square of the signal + the DC bin and (even `n`)
 the Nyquist bin counted a second time at half weight — exactly. -/
 theorem parseval (n : ℕ) (hn : 0 < n) (s : ℕ → ℝ) :
@@ -212,6 +229,7 @@ example := psd_window_tone .hann 16 3 2 1 3 (1/2) (by norm_num) (by decide) (by 
 example (w s : ℕ → ℝ) := psd_trim 35 4 w s (fun i => if i < 32 then s i else 0) 1
   (fun i hi => by simp only [show 35 - 35 % 4 = 32 by norm_num] at hi; simp [hi])
 example := toneConv_tone 8 1 3 (1/2) 100000 (by norm_num) (by norm_num) (by norm_num)
+example := toneConv_window_tone .flattop 32 5 3 (1/2) 100000 (by norm_num) (by decide) (by decide)
 example (s : ℕ → ℝ) := parseval 9 (by norm_num) s
 example (s : ℕ → ℝ) := csdToSignal_csd 4 (by norm_num) s 7 (by norm_num)
 
